@@ -19,6 +19,14 @@ structure Cfg where
   searchNeedles : List String
   advPrefix : String
   advNeedles : List String
+  /-- `datetime.max` in µs on the harness' time axis: `timestamp + uncache_after` saturates there -/
+  tMax : Int
+  /-- `timedelta.max` in µs -/
+  tdMaxUs : Nat
+  /-- the first number of seconds `timedelta(seconds=n)` rejects (`days` would exceed 999999999) -/
+  tdLimitSec : Nat
+  /-- `sys.get_int_max_str_digits()`: `int()` raises `ValueError` on more digits (leading zeros count) -/
+  intMaxDigits : Nat
 deriving Repr, DecidableEq
 
 namespace Parse
@@ -53,27 +61,36 @@ def isDigit (c : Char) : Bool := '0' ≤ c && c ≤ '9'
 def digitsToNat (ds : List Char) : Nat := ds.foldl (fun acc c => acc * 10 + (c.toNat - 48)) 0
 
 /-- `max-age\s*=\s*(\d+)` (IGNORECASE) anchored at the head of the list -/
-def maxAgeAt (l : List Char) : Option Nat :=
+def maxAgeAt (l : List Char) : Option (List Char) :=
   if lowerL (l.take 7) == "max-age".toList then
     match (l.drop 7).dropWhile isWs with
     | '=' :: r =>
       let ds := (r.dropWhile isWs).takeWhile isDigit
-      if ds.isEmpty then none else some (digitsToNat ds)
+      if ds.isEmpty then none else some ds
     | _ => none
   else none
 
 /-- `CACHE_CONTROL_RE.search` -/
-def maxAgeSearch : List Char → Option Nat
+def maxAgeSearch : List Char → Option (List Char)
   | [] => none
   | h :: t => match maxAgeAt (h :: t) with
     | some n => some n
     | none => maxAgeSearch t
 
-/-- `extract_uncache_after`, in µs -/
+/-- `extract_uncache_after`, in µs: `timedelta(seconds=int(match[1]))`, saturating at `timedelta.max` when `int()`
+    refuses the digit string (more than `intMaxDigits` characters) or `timedelta` refuses the number -/
 def maxAgeUs (cfg : Cfg) (cacheControl : String) : Int :=
   match maxAgeSearch cacheControl.toList with
-  | some n => (n : Int) * 1000000
+  | some ds =>
+    if ds.length > cfg.intMaxDigits then (cfg.tdMaxUs : Int)
+    else if digitsToNat ds ≥ cfg.tdLimitSec then (cfg.tdMaxUs : Int)
+    else (digitsToNat ds : Int) * 1000000
   | none => (cfg.defaultMaxAgeSec : Int) * 1000000
+
+/-- the max-age that takes effect: `extract_valid_to` computes `timestamp + uncache_after` and saturates at
+    `datetime.max`, i.e. `valid_to = timestamp + min(uncache_after, datetime.max - timestamp)` -/
+def effMaxAge (cfg : Cfg) (ts : Int) (cacheControl : String) : Int :=
+  if ts + maxAgeUs cfg cacheControl > cfg.tMax then cfg.tMax - ts else maxAgeUs cfg cacheControl
 
 def locOk (pre : String) (needles : List String) (loc : String) : Bool :=
   pre.toList.isPrefixOf loc.toList && !(needles.any fun n => isInfix n loc)
@@ -156,9 +173,16 @@ def hget (h : Hdrs String) (lk : String) : Option String := (get? h lk).map (·.
 def skipHdr (cfg : Cfg) (lk : String) : Bool :=
   (!cfg.privatePrefix.isEmpty && cfg.privatePrefix.toList.isPrefixOf lk.toList) || cfg.ignored.contains lk
 
+/-- `str(int)` read back: optional `-`, then decimal digits -/
+def intOf (l : List Char) : Option Int :=
+  match l with
+  | '-' :: r => if !r.isEmpty && r.all isDigit then some (-(digitsToNat r : Int)) else none
+  | r => if !r.isEmpty && r.all isDigit then some (digitsToNat r : Int) else none
+
+/-- `_timestamp` (the harness writes the datetime as integer µs on its time axis) -/
 def tsOf (h : Hdrs String) : Int :=
   match hget h "_timestamp" with
-  | some v => v.toInt?.getD 0
+  | some v => (intOf v.toList).getD 0
   | none => 0
 
 def mkMsg (cfg : Cfg) (kind : Kind) (h : Hdrs String) : Msg String :=
@@ -174,7 +198,7 @@ def mkMsg (cfg : Cfg) (kind : Kind) (h : Hdrs String) : Msg String :=
     locOk := match loc with
       | some l => if isSearch then locOk cfg.searchPrefix cfg.searchNeedles l else locOk cfg.advPrefix cfg.advNeedles l
       | none => false
-    maxAge := maxAgeUs cfg ((hget h "cache-control").getD "")
+    maxAge := effMaxAge cfg (tsOf h) ((hget h "cache-control").getD "")
     hdrs := h }
 
 def ssdpDiscover : String := "\"ssdp:discover\""
